@@ -1,0 +1,23 @@
+//go:build verif
+
+// Contracts for the deductive verification in /verif (govc). Comment-only:
+// with the build tag off this file is not compiled, with it on it declares nothing.
+package templ
+
+// ---------------------------------------------------------------------------
+// C04: the URL sanitiser returns its input unchanged only if a browser resolves
+// it as a relative reference or with an allowed scheme (language URL_BROWSER_OK,
+// written from the WHATWG URL standard in /verif/contracts/lang/url.lang).
+
+//@ func URL [C04]
+//@   ensures result == FailedSanitizationURL || (result == s && inL(s, URL_BROWSER_OK))
+//@   use return.2: url_nocolon(s)
+//@   use return.2: url_slash(s[:i], s[i+1:])
+//@   use return.2: url_allowed(s[:i], s[i+1:])
+
+// The three "returned unchanged" paths of URL, as regular-language inclusions.
+// NO_3a_STAR = [^:]*, NO_2f_STAR = [^/]*, FOLD_x = what strings.EqualFold(·, x)
+// accepts (derived from unicode.SimpleFold on every run).
+//@ lemma url_nocolon(x) [C04]: inL(x, NO_3a_STAR) ==> inL(x, URL_BROWSER_OK) by reglang
+//@ lemma url_slash(p, rest) [C04]: inL(p, NO_3a_STAR) && !inL(p, NO_2f_STAR) ==> inL(cat(p, ":", rest), URL_BROWSER_OK) by reglang
+//@ lemma url_allowed(p, rest) [C04]: (inL(p, FOLD_http) || inL(p, FOLD_https) || inL(p, FOLD_mailto) || inL(p, FOLD_tel) || inL(p, FOLD_ftp) || inL(p, FOLD_ftps)) ==> inL(cat(p, ":", rest), URL_BROWSER_OK) by reglang
